@@ -45,3 +45,9 @@ def run(rep: Report, repo: Repo, tier: str) -> None:
     # "every index.rst contains one toctree": no page can take the index's place
     with rep.isolated():
         fsrules.rule_index_name_collision(rep, repo, "C14-R12")
+    # "its title names the directory (the prefix for the top directory)": the default prefix is the directory's name
+    from .c12 import rule_prefix_default
+    with rep.isolated():
+        rule_prefix_default(rep, repo, "C14-R13")
+    with rep.isolated():
+        fsrules.rule_file_list_filters(rep, repo, "C14-R14")
